@@ -1,4 +1,4 @@
-SPECIFICATION Spec
+SPECIFICATION InstSpec
 CONSTANTS
   MaxN = 4
   Variants = {"Best", "Majority", "RootMajority", "First"}
@@ -6,4 +6,4 @@ CONSTANTS
   Scores = {0, 1, 2}
   FirstCap = 0
 INVARIANTS TypeOK ReturnsByHard BestIsMax MajorityRule FirstIsSome ErrorIffNothing InvalidNeverReturned
-PROPERTY Termination
+PROPERTIES Termination EveryCallReturns HistoryIndependent
